@@ -216,10 +216,26 @@ Proof.
   destruct (mem f [45; 32; 43; 73]%N); reflexivity.
 Qed.
 
+(* D15: the code does not know the alternate form of %m (glibc >= 2.35): it raises FlagError for "%#m".
+   What the code accepts is flag_allowed minus that one combination. *)
+Definition alt_m (cv f : N) : bool := (cv =? 109)%N && (f =? 35)%N.
+Definition flag_allowed_impl (cv f : N) : bool := flag_allowed cv f && negb (alt_m cv f).
+Definition no_alt_m (d : directive) : bool := negb ((body_conv (d_body d) =? 109)%N && mem 35%N (d_flags d)).
+Definition valid_impl (d : directive) : bool := valid_directive d && no_alt_m d.
+
+Lemma forallb_impl : forall cv fl,
+  forallb (flag_allowed_impl cv) fl = forallb (flag_allowed cv) fl && negb ((cv =? 109)%N && mem 35%N fl).
+Proof.
+  intros cv. induction fl as [|a fl IH]; cbn [forallb].
+  - unfold mem. cbn [existsb]. destruct (cv =? 109)%N; reflexivity.
+  - rewrite IH. unfold flag_allowed_impl, alt_m. unfold mem. cbn [existsb]. fold (mem 35%N fl). rewrite (N.eqb_sym 35%N a).
+    destruct (flag_allowed cv a), (forallb (flag_allowed cv) fl), (cv =? 109)%N, (a =? 35)%N, (mem 35%N fl); reflexivity.
+Qed.
+
 Definition flag_check (cv f : N) : bool :=
   match flag_step [] cv [] f with
-  | Ok _ => flag_allowed cv f
-  | Err _ => negb (flag_allowed cv f)
+  | Ok _ => flag_allowed_impl cv f
+  | Err _ => negb (flag_allowed_impl cv f)
   | Crash _ => false
   end.
 
@@ -229,8 +245,8 @@ Proof. vm_compute. reflexivity. Qed.
 
 Lemma flag_step_spec : forall txt cv all f, In cv conversion_specifiers -> mem f flag_characters = true ->
   match flag_step txt cv all f with
-  | Ok _ => flag_allowed cv f = true
-  | Err _ => flag_allowed cv f = false
+  | Ok _ => flag_allowed_impl cv f = true
+  | Err _ => flag_allowed_impl cv f = false
   | Crash _ => False
   end.
 Proof.
@@ -246,8 +262,8 @@ Qed.
 Lemma flag_loop_spec : forall txt cv all fs, In cv conversion_specifiers ->
   forallb (fun f => mem f flag_characters) fs = true ->
   match flag_loop txt cv all fs with
-  | Ok _ => forallb (flag_allowed cv) fs = true
-  | Err _ => forallb (flag_allowed cv) fs = false
+  | Ok _ => forallb (flag_allowed_impl cv) fs = true
+  | Err _ => forallb (flag_allowed_impl cv) fs = false
   | Crash _ => False
   end.
 Proof.
@@ -347,8 +363,8 @@ Proof. reflexivity. Qed.
 
 Lemma conversion_init_spec : forall cid st d txt, syntax_ok d = true -> inv (core_of st) ->
   match conversion_init 0 cid st d txt with
-  | Ok (st', _) => valid_directive d = true /\ add_all (core_of st) (mrefs cid d) = Some (core_of st')
-  | Err _ => valid_directive d = false \/ add_all (core_of st) (mrefs cid d) = None
+  | Ok (st', _) => valid_impl d = true /\ add_all (core_of st) (mrefs cid d) = Some (core_of st')
+  | Err _ => valid_impl d = false \/ add_all (core_of st) (mrefs cid d) = None
   | Crash _ => False
   end.
 Proof.
@@ -356,7 +372,7 @@ Proof.
   apply andb_true_iff in Hsyn. destruct Hsyn as [Hsyn S5]. apply andb_true_iff in Hsyn. destruct Hsyn as [Hsyn _].
   apply andb_true_iff in Hsyn. destruct Hsyn as [Hsyn _]. apply andb_true_iff in Hsyn. destruct Hsyn as [_ S2].
   pose proof (body_check_ok b S5) as HB. pose proof (body_conv_in b S5) as HC.
-  unfold conversion_init, valid_directive, mrefs, mval, minteger. cbn [d_index d_flags d_width d_prec d_body].
+  unfold conversion_init, valid_impl, no_alt_m, valid_directive, mrefs, mval, minteger. cbn [d_index d_flags d_width d_prec d_body].
   unfold body_check in HB.
   destruct (step_type b) as [[[[otp integer] cv] np]|e|c]; [|discriminate|discriminate]. cbn [obind].
   apply andb_true_iff in HB. destruct HB as [Hcv HB]. apply N.eqb_eq in Hcv. subst cv.
@@ -365,10 +381,10 @@ Proof.
   2:{ destruct (body_takes b); try discriminate. destruct (body_length b); [discriminate|]. left. reflexivity. }
   (* flags *)
   pose proof (flag_loop_spec txt (body_conv b) fl (dedup fl) HC) as HF. rewrite forallb_dedup in HF.
-  rewrite (forallb_dedup (flag_allowed (body_conv b)) fl) in HF. specialize (HF S2).
+  rewrite (forallb_dedup (flag_allowed_impl (body_conv b)) fl) in HF. specialize (HF S2). rewrite forallb_impl in HF.
   destruct (flag_loop txt (body_conv b) fl (dedup fl)) as [fw|e|c]; cbn [obind]; [|left|exact HF].
-  2:{ rewrite HF. rewrite andb_false_r. reflexivity. }
-  rewrite HF. rewrite andb_true_r.
+  2:{ apply andb_false_iff in HF. destruct HF as [HF|HF]; rewrite HF; rewrite ?andb_false_r; reflexivity. }
+  apply andb_true_iff in HF. destruct HF as [HF HNA]. rewrite HF, HNA. rewrite !andb_true_r.
   set (st1 := add_warns st0 _).
   assert (core_of st1 = core_of st) as C1 by reflexivity.
   (* width *)
